@@ -117,7 +117,32 @@ def run(ctx, prog):
                  'failure edge leaves without releasing the reservation' if bad else 'release(reserved_slots) on every failure path')
         # Ok: release(reserved − inserted_now) unless reserved_slots == 0
         starts = [e[1] for e in s_e]
-        rel_part = [x.bb for x in rel if re.search(r'saturating_sub\(var:reserved_slots, var:inserted_now\)|var:release', flow.render(ov.of_operand(x.args[2])))]
+        # the amount given back on success is "reserved − census of the reserved ids that now exist": full origin
+        #   saturating_sub(len(S), count(filter(iter(S), |id| engine.exists(id))))  with len(S) the amount passed to reserve_tenant_vectors
+        of_full = flow.Origin(b)
+        reserved_full = set(flow.render(of_full.of_operand(x.args[2])) for x in b.calls_to('KyroDBServiceImpl::reserve_tenant_vectors'))
+
+        def _census_release(x):
+            r_ = flow.render(of_full.of_operand(x.args[2]))
+            m_ = re.match(r'^num::saturating_sub\((.+?), <filter::Filter<I, P> as iterator::Iterator>::count\(Iterator::filter\(HashSet::iter\((.+?)\), closure:(.+::\{closure#\d+\})\{.*\}\)\)\)$', r_)
+            if not m_:
+                return False, 'amount is %s' % r_[:90]
+            res_, set_, cl_ = m_.group(1), m_.group(2), m_.group(3)
+            if res_ not in reserved_full or res_ != 'HashSet::len(%s)' % set_:
+                return False, 'minuend %s is not the reserved amount len(%s)' % (res_[:40], set_[:30])
+            cb_ = prog.bodies.get(cl_.strip()) or next((q for q in prog.family(b) if q.id == cl_.strip() or cl_.strip().startswith(q.id)), None)
+            if cb_ is None:
+                return False, 'census closure not found'
+            ex_ = cb_.calls_to('TieredEngine::exists')
+            ret_ = flow.render(flow.Origin(cb_).of_local(0))
+            if not ex_ or not ret_.startswith('TieredEngine::exists('):
+                return False, 'census predicate is %s' % ret_[:60]
+            return True, 'reserved − |{reserved ids that exist}|'
+        rel_part = [x.bb for x in rel if _census_release(x)[0]]
+        rel_other = [(x, _census_release(x)[1]) for x in rel if not _census_release(x)[0] and flow.render(ov.of_operand(x.args[2])) != 'var:reserved_slots']
+        if rel_other and k == 0:
+            ctx.inst('C14.R2', 'rpc bulk_load_hnsw', 'every partial release is computed from a census of the reserved ids', False,
+                     'release at %s: %s — a count taken from the loader (failed / loaded) also counts rejected overwrites and duplicate ids that never reserved a slot' % (rel_other[0][0].loc, rel_other[0][1]))
         zero = []
         for i, blk in enumerate(b.blocks):
             if blk['t']['k'] == 'switch':
